@@ -150,6 +150,15 @@ func (g *gb) table(funcs ...uint32) {
 	g.m.Elems = []wenc.Elem{{Mode: 0, Offset: wenc.ConstI32(0), FuncIdx: funcs}}
 }
 
+// entryTable adds a further funcref table holding funcs and returns its index.
+func (g *gb) entryTable(funcs ...uint32) uint32 {
+	n := uint32(len(funcs))
+	idx := uint32(len(g.m.Tables))
+	g.m.Tables = append(g.m.Tables, wenc.TableType{Elem: wenc.FuncRef, Lim: wenc.Limits{Min: n, Max: n, HasMax: true}})
+	g.m.Elems = append(g.m.Elems, wenc.Elem{Mode: 0, TableIdx: idx, Offset: wenc.ConstI32(0), FuncIdx: funcs})
+	return idx
+}
+
 const bt = 0x40 // empty block type
 
 // loopShapes: name -> builder returning the index of the function that runs the cycle, and ticks per iteration.
@@ -347,7 +356,7 @@ type caseSpec struct {
 	Ticked bool   `json:"ticked"`
 }
 
-var entryKinds = []string{"export", "start", "_start", "hostcb", "return_call-entry", "call-entry"}
+var entryKinds = []string{"export", "start", "_start", "hostcb", "return_call-entry", "call-entry", "call_indirect-entry", "call_indirect-chain-entry"}
 
 func (cs caseSpec) label() string {
 	s := cs.Shape
@@ -404,6 +413,22 @@ func build(cs caseSpec) (*program, error) {
 			fam = "imported-module-inner-call-loop"
 		}
 		return &program{Mods: []modBin{{"lib", lb.m.Encode()}, {"guest", g.Encode()}}, TPI: 1, Class: "loop", Family: fam}, nil
+	case "xmod-call_indirect-entry":
+		// lib exports spin (a ticking loop); guest imports it, puts the IMPORTED function in its table and
+		// its exported run is straight-line: i32.const 0; call_indirect
+		lb := newGB(cs.Ticked, false)
+		c := &wenc.Code{}
+		c.Loop(bt)
+		lb.T(c).Br(0).End()
+		lb.m.ExportFunc("spin", lb.fn(c))
+		g := &wenc.Module{}
+		imp := g.ImportFunc("lib", "spin", nil, nil)
+		t0 := g.AddType(nil, nil)
+		g.Tables = []wenc.TableType{{Elem: wenc.FuncRef, Lim: wenc.Limits{Min: 1, Max: 1, HasMax: true}}}
+		g.Elems = []wenc.Elem{{Mode: 0, Offset: wenc.ConstI32(0), FuncIdx: []uint32{imp}}}
+		g.ExportFunc("run", g.AddFunc(nil, nil, nil, (&wenc.Code{}).I32Const(0).CallIndirect(t0, 0).End().B))
+		g.ExportFunc("nop", g.AddFunc(nil, nil, nil, (&wenc.Code{}).End().B))
+		return &program{Mods: []modBin{{"lib", lb.m.Encode()}, {"guest", g.Encode()}}, TPI: 1, Class: "loop", Family: "imported-function-loop-via-table"}, nil
 	case "xmod-return_call-cycle":
 		// lib: table t (1 slot), g: tick; return_call_indirect t[0]
 		// guest: imports lib.t, lib.g; elem t[0] = f; f: tick; return_call lib.g ; run = f
@@ -472,6 +497,17 @@ func build(cs caseSpec) (*program, error) {
 		g.m.ExportFunc("run", g.fn((&wenc.Code{}).ReturnCall(head)))
 	case "call-entry":
 		g.m.ExportFunc("run", g.fn((&wenc.Code{}).Call(head)))
+	case "call_indirect-entry":
+		// the exported function is straight-line: no loop, no tail call, no direct call; it reaches the
+		// cycle only through call_indirect via a table of its own
+		t := g.entryTable(head)
+		g.m.ExportFunc("run", g.fn((&wenc.Code{}).I32Const(0).CallIndirect(g.t0, t)))
+	case "call_indirect-chain-entry":
+		// two such trampolines in a row: run -call_indirect-> tramp -call_indirect-> cycle
+		tramp := g.next()
+		t := g.entryTable(head, tramp)
+		g.fn((&wenc.Code{}).I32Const(0).CallIndirect(g.t0, t))
+		g.m.ExportFunc("run", g.fn((&wenc.Code{}).I32Const(1).CallIndirect(g.t0, t)))
 	default:
 		return nil, fmt.Errorf("unknown entry %q", cs.Entry)
 	}
